@@ -39,12 +39,15 @@ def observe(C, A, res):
     has_sync = [hasattr(C, bn), hasattr(C, pn)]
     has_async = [hasattr(A, bn), hasattr(A, pn)] if A is not None else [False, False]
     same = bool(all(has_sync) and all(has_async) and getattr(A, bn) is getattr(C, bn) and getattr(A, pn) is getattr(C, pn))
-    for c in res['calls']:
+    for n, c in enumerate(res['calls']):
+        # the helpers are static: every other call reaches them through an INSTANCE of the client (client.x_path(...)), not the class
+        Cx = C.__new__(C) if n % 2 else C
+        Ax = A.__new__(A) if (n % 2 and A is not None) else A
         o = dict(id=c['id'], helper=h, has_sync=has_sync, has_async=has_async, same_fn=same, built=None, built_err=None,
                  parse_in=None, parsed=None, parse_err=None, rebuilt=None, rebuilt_err=None,
                  a_built=None, a_parsed=None, a_err=None)
         if all(has_sync):
-            b, p = getattr(C, bn), getattr(C, pn)
+            b, p = getattr(Cx, bn), getattr(Cx, pn)
             o['built'], o['built_err'] = _call(b, **c['args'])
             s = o['built'] if c['kind'] == 'built' else c['str']
             o['parse_in'] = s
@@ -57,8 +60,8 @@ def observe(C, A, res):
                 if isinstance(d, dict) and d:
                     o['rebuilt'], o['rebuilt_err'] = _call(b, **d)
                 if all(has_async):
-                    ab, e1 = _call(getattr(A, bn), **c['args'])
-                    ad, e2 = _call(getattr(A, pn), s)
+                    ab, e1 = _call(getattr(Ax, bn), **c['args'])
+                    ad, e2 = _call(getattr(Ax, pn), s)
                     if isinstance(ad, dict) and 'verif_caller_wrote_here' in ad:
                         ad = dict(ad)          # (reported through the sync observation of a later call; keep this comparison about agreement)
                     o['a_built'], o['a_parsed'], o['a_err'] = ab, _items(ad), e1 or e2
